@@ -40,7 +40,7 @@ na = [dict(property_id=p, reason="not yet built in this round (planned, see DESI
 
 m = dict(
     version=1,
-    setup_cmd="cd /verif/coq && coq_makefile -f _CoqProject -o Makefile && timeout 3000 make -j16",
+    setup_cmd="cd /verif && ./check setup",
     hooks=dict(guard="CALGEBRA_VERIF", enable="no source hooks are needed: checks import /repo directly (PYTHONPATH=/repo) and inject fakes by replacing module globals",
                baseline_off_cmd="cd /repo && /venv/bin/python -m pytest -ra -q -p no:cacheprovider --timeout=900 --continue-on-collection-errors",
                source_commits=[], add_only=True),
